@@ -78,7 +78,7 @@ func (c *verifTCPConn) AddClosed(status string, data metrics.ProxyMetrics, durat
 	c.m.add("tcpclosed %s %s %s", c.local, c.remote, status)
 }
 func (c *verifTCPConn) AddProbe(status, drainResult string, clientProxyBytes int64) {
-	c.m.add("tcpprobe %s %s %s", c.local, c.remote, status)
+	c.m.add("tcpprobe %s %s %s %q", c.local, c.remote, status, drainResult)
 }
 
 type verifUDPConn struct {
